@@ -178,9 +178,11 @@ func (t *T) str() string {
 	return t.Op + "?"
 }
 
-func cStr(s string) *T  { return &T{Op: "const", C: constant.MakeString(s), Typ: types.Typ[types.String]} }
-func cBool(b bool) *T   { return &T{Op: "const", C: constant.MakeBool(b), Typ: types.Typ[types.Bool]} }
-func cInt(i int64) *T   { return &T{Op: "const", C: constant.MakeInt64(i), Typ: types.Typ[types.Int]} }
+func cStr(s string) *T {
+	return &T{Op: "const", C: constant.MakeString(s), Typ: types.Typ[types.String]}
+}
+func cBool(b bool) *T      { return &T{Op: "const", C: constant.MakeBool(b), Typ: types.Typ[types.Bool]} }
+func cInt(i int64) *T      { return &T{Op: "const", C: constant.MakeInt64(i), Typ: types.Typ[types.Int]} }
 func (t *T) isConst() bool { return t != nil && t.Op == "const" && !t.Nil && t.C != nil }
 func (t *T) strVal() (string, bool) {
 	if t.isConst() && t.C.Kind() == constant.String {
@@ -258,7 +260,7 @@ type PXConfig struct {
 
 type pxState struct {
 	terms  map[string]*T // the condition term each fact atom came from
-	order  []string // facts in the order they were established
+	order  []string      // facts in the order they were established
 	facts  Facts
 	mem    map[string]*T
 	heap   map[string]*T
